@@ -205,7 +205,12 @@ def judge(prop, r, script, outcomes, h, label=''):
             r.violate(prop, 'hang', 'client-hang:' + shape, o.get('error_msg', ''))
             break
         if o.get('error') == 'OTHER':
-            # not judged here (C09 owns "no other exception escapes"); stop judging this script
+            if ref.complete and ref.payload is None and coded:
+                # damaged coded stream: must be reported as a protocol error, not as some other exception
+                r.violate('C19', 'corrupt-coded-wrong-error', '%s:%s' % (o.get('error_type'), resp.coding),
+                          'exchange %d %s: damaged %s body raised %s instead of a protocol error: %s%s'
+                          % (i, resp.desc, resp.coding, o.get('error_type'), o.get('error_msg'), label))
+            # otherwise not judged here (C09 owns "no other exception escapes"); stop judging this script
             r.log('exchange %d: non-protocol exception %s' % (i, o.get('error_type')))
             break
         if ref.complete and ref.payload is not None:
@@ -232,7 +237,9 @@ def judge(prop, r, script, outcomes, h, label=''):
                               'exchange %d %s: body len %d differs from reference len %d (first diff at %s)%s'
                               % (i, resp.desc, len(o['body']), len(ref.payload), _first_diff(o['body'], ref.payload), label))
         elif ref.complete and ref.payload is None:
-            # framing complete, content coding corrupt/truncated -> must be an error (C19)
+            # framing complete, content coding corrupt/truncated -> must be a protocol error (C19)
+            if o.get('error') == 'NetworkError' and 'timed out' not in o.get('error_msg', '').lower():
+                pass
             if o.get('ok'):
                 r.violate('C19', 'corrupt-coded-accepted', '%s:%s' % (resp.desc.get('damage', 'damaged'), resp.coding),
                           'exchange %d %s: damaged %s body accepted as success with %d bytes (reference: %s)%s'
